@@ -48,6 +48,7 @@ ABTI_waitlist_wait_and_unlock(ABTI_local **pp_local, ABTI_waitlist *p_waitlist,
         ABTD_spinlock_release(p_lock);
         while (ABTD_atomic_acquire_load_int(&thread.state) !=
                ABT_THREAD_STATE_READY)
+            ABTI_VERIF_SPIN_HINT(ABTI_VERIF_SITE_WAITLIST_ACTIVE, &thread)
             ;
 #else
         while (1) {
@@ -144,6 +145,7 @@ static inline ABT_bool ABTI_waitlist_wait_timedout_and_unlock(
                 ABTD_spinlock_acquire(p_lock);
                 goto timeout;
             }
+            ABTI_VERIF_SPIN_HINT(ABTI_VERIF_SITE_WAITLIST_ACTIVE, &thread);
         }
 #else
         while (1) {
